@@ -102,6 +102,42 @@ prop('C07', src='props/c07_wordlists.cpp',
      technique='exhaustive enumeration (all languages x indices x positions) against golden data, through encode and both decoders',
      level_text='The domain is finite (10 x 2048 x 16) and is enumerated completely on every run, in a sanitised build with the library self-test assertions enabled. Exhaustive exploration of the stated domain.')
 
+prop('C04', src='props/c04_keygen.cpp',
+     plan={'quick': [{'variant': 'asan', 'workers': 16}], 'thorough': [{'variant': 'asan', 'workers': 16}, {'variant': 'rel', 'workers': 16}]},
+     rule='rapidcheck: (secret, birthday, features, coin, key size in {0,1,16,31,32,33,64,65,4096,SIZE_MAX/2}, path in {created, decoded from a random language, loaded, crypt applied twice}, key buffer = PROT_NONE page with a KDF stub that does not touch it | patterned buffer filled by the stub). '
+          'Oracle: the KDF log holds exactly one call with pwlen 32, pw = secret||0^13, saltlen 32, salt = "POLYSEED key" 00 FF FF FF || LE32(coin) || LE32(birthday) || LE32(features) || 0^4, 10000 iterations, the caller\'s pointer and length; the buffer afterwards is exactly what the stub wrote; a neighbour seed differing in one ingredient gives different (pw, salt). '
+          'Non-trivial = birthday>511 or coin>2 or features!=0 or path!=created or key size!=32.',
+     required_classes={'any': ['path:created', 'path:decoded', 'path:loaded', 'path:crypt2', 'key:no-access-page', 'key:patterned', 'birthday>511']},
+     technique='property-based testing (rapidcheck) with a recording KDF stub: every argument compared with the specification, key buffer on an inaccessible page',
+     level_text='Every generated case checks all seven KDF arguments against the published formula and path-independence; the key buffer is either inaccessible (any library read/write faults) or compared byte-for-byte with the stub output. Sampling: exploration.')
+
+prop('C10', src='props/c10_features.cpp',
+     plan={'quick': [{'variant': 'asan', 'workers': 16}], 'thorough': [{'variant': 'asan', 'workers': 16}, {'variant': 'rel', 'workers': 16}]},
+     exhaustive=True,
+     rule='(1) exhaustive core: enabling argument in {0..7, 8, 16, 24, 0xF8|k, 0xFFFFFFF8|k} (27 values) x feature value 0..31 x create-argument with/without high bits x 2 languages, each through four entry points (create, load of the model image, decode_explicit and decode of the specification phrase) plus wrong-check-value variants (CHECKSUM must precede UNSUPPORTED); default state probed before the first enabling call; '
+          '(2) rapidcheck histories of 1-6 enabling calls. Oracle: return = popcount(arg & 7); accepted iff f & ~(m|16) == 0 with m = last arg & 7, else UNSUPPORTED with no block left allocated; create stores exactly arg & 7; get_feature(q) = f & q & 7 for q in 0..31 and with high bits; is_encrypted = bit 4; features survive phrase/storage round trips; crypt toggles only bit 4. Every case non-trivial.',
+     required_classes={'any': ['default-state', 'create:accepted', 'create:refused', 'load:accepted', 'load:refused', 'decode_explicit:accepted', 'decode_explicit:refused', 'decode:accepted', 'decode:refused', 'reserved-kdf-bit', 'history>1']},
+     technique='exhaustive enumeration of (mask argument x feature value x entry point) + property-based histories of enabling calls against a feature-admission model',
+     level_text='The finite core (27 enabling arguments x 32 feature values x 4 entry points) is enumerated completely on every run; histories of enabling calls and seed contents are sampled. Exploration with an exhaustive core.')
+
+prop('C11', src='props/c11_birthday.cpp',
+     plan={'quick': [{'variant': 'asan', 'workers': 16}], 'thorough': [{'variant': 'asan', 'workers': 16}, {'variant': 'rel', 'workers': 16}]},
+     exhaustive=True,
+     rule='(1) exhaustive boundary set: EPOCH + k*STEP + {-1,0,+1} for k = 0..1024 (3075 clocks) and 17 special values (0, 1, EPOCH-1, 2^31 and 2^32 neighbours, 2^63, 2^64-2, 2^64-1, range end); (2) rapidcheck clocks (in-range, month boundaries +-2, before the epoch, beyond the range, uniform 64-bit) followed by a random chain of encode/decode, store/load, crypt, auto-decode. '
+          'Oracle (validity predicate): B = EPOCH + k*2629746 with k in 0..1023; in range B <= t < B + STEP; before the epoch and for 2^64-1 B = EPOCH; for every t >= EPOCH B <= t; B unchanged along the chain. Distinct = (t, chain, language).',
+     required_classes={'any': ['in-range', 'before-epoch', 'after-range', 'time-error-value', 'step:crypt', 'step:store/load', 'step:encode/decode']},
+     technique='property-based testing (rapidcheck) of a validity predicate over injected clock values + exhaustive enumeration of all 1025 month boundaries on both sides',
+     level_text='All month boundaries and the special clock values are enumerated; the remaining 2^64 clocks and the transformation chains are sampled. Exploration.')
+
+prop('C12', src='props/c12_crypt.cpp',
+     plan={'quick': [{'variant': 'asan', 'workers': 16}], 'thorough': [{'variant': 'asan', 'workers': 16}, {'variant': 'rel', 'workers': 16}]},
+     rule='rapidcheck: (seed, password built from ASCII runs, accented Spanish/French/Korean/Japanese words in composed or decomposed form, compatibility characters, random scalar values, or empty; KDF mask fixed by the generator (weights on 00.., FF.., top bits of byte 18 set) or a keyed mix of (pw, salt); chain of 1-4 applications with the same / the other canonical form / a different password). '
+          'Oracle per application: one KDF call with pw = NFKD(password) bytes and that length, salt "POLYSEED mask" 00 FF FF (16), 10000 iterations, key length 32; new store bytes = model (secret ^= mask[0..18], byte 18 &= 0x3F, encrypted bit toggled, rest unchanged, check value recomputed); even number of same-password applications restores the seed; the result loads, stores, encodes and decodes unchanged. '
+          'Non-trivial = mask with a top bit of byte 18 set, or non-ASCII password, or chain >= 2. Passwords whose NFKD form exceeds the buffer are discarded (C14 covers them).',
+     required_classes={'any': ['mask-top-bits-of-byte18-set', 'password:non-ascii', 'password:empty', 'password:has-other-canonical-form', 'chain>=2', 'involution-checked', 'wrong-password-used']},
+     technique='property-based testing (rapidcheck) against a model of the mask application, with a recording/programmable KDF stub and real NFKD; involution and representation round-trips',
+     level_text='Each generated application is compared with the model image and the recorded KDF arguments; involution and well-formedness follow per case. Sampling: exploration.')
+
 NOT_APPLICABLE = {}
 MANIFEST_NOTES = 'All checks: ./check run <ID> --tier quick|thorough; VERIF_SEED selects the generator seed; evidence in /verif/evidence/<ID>.json; replay files under /verif/replays/<ID>/; committed regression cases under /verif/regress/<ID>/. See DESIGN.md.'
 for _p in ['C%02d' % i for i in range(1, 21)]:
